@@ -12,7 +12,14 @@ EXTENDS Naturals, Sequences, FiniteSets, TLC, Json, IOUtils
 Shapes == {"len0", "len1", "oneN", "kminus1", "k", "wminus1", "w", "allN", "Nfirst", "Nlast"}
 Cmds == {"oligo-mmap", "oligo-batch", "oligo-stdin", "oligo-mmap-H", "oligo-batch-H", "cov-alt", "cgr", "ocgr", "ocgr-counts", "cov", "min-s2m-w0", "min-s2m-w", "min-m2s-w0", "min-m2s-w", "ctr"}
 NMax == atoi(IOEnv.VN)
-Scenarios == [cmd : Cmds, shapes : UNION {[1..n -> Shapes] : n \in 0..NMax}, threads : {1, 3}]
+\* the container the records arrive in: FASTA, FASTQ (which cannot hold a record without bases), gzip-compressed FASTA
+\* (an empty file is then a gzip member with nothing in it; standard input is read as it is, not decompressed)
+Conts == {"fa", "fq", "gz"}
+Scenarios == [cmd : Cmds, shapes : UNION {[1..n -> Shapes] : n \in 0..NMax}, threads : {1, 3}, cont : Conts]
+\* shapes without any base (for the whole-sequence CGR the reference length k is 1, so "k - 1" is empty as well)
+NoBase(cmd) == IF cmd = "cgr" THEN {"len0", "kminus1"} ELSE {"len0"}
+WellFormed(s) == /\ s.cont = "fq" => \A i \in 1..Len(s.shapes) : s.shapes[i] \notin NoBase(s.cmd)
+                 /\ s.cmd = "oligo-stdin" => s.cont # "gz"
 
 HasOther(sh) == \E i \in 1..Len(sh) : sh[i] \in {"oneN", "allN", "Nfirst", "Nlast"}
 RecordOriented(c) == c \notin {"min-m2s-w0", "min-m2s-w", "ctr"}
@@ -28,7 +35,7 @@ Outcome(s, e) ==
           /\ RecordOriented(s.cmd) => e.rows = Len(s.shapes) + (IF s.cmd \in {"oligo-mmap-H", "oligo-batch-H"} THEN 1 ELSE 0)
 
 VARIABLE sc
-Init == sc \in Scenarios
+Init == sc \in Scenarios /\ WellFormed(sc)
 Next == UNCHANGED sc
 Spec == Init /\ [][Next]_sc
 Out == PrintT(<<"DEG", ToJson(sc)>>)
